@@ -442,14 +442,22 @@ def r053(eng, rep, wd: FuncInfo, builder: FuncInfo) -> None:
         rep.undecided("R05.3", wd.file, wd.qual, "filing of the message", "append idiom not recognised")
     else:
         tgt = call.func.value
-        keys = [norm(x.slice) for x in ast.walk(tgt) if isinstance(x, ast.Subscript)]
+        tgt_r = resolved(tgt, env) if isinstance(tgt, ast.Name) else tgt
+        keys = [norm(x.slice) for x in ast.walk(tgt_r) if isinstance(x, ast.Subscript)]
+        keys += [norm(x.args[0]) for x in ast.walk(tgt_r) if isinstance(x, ast.Call) and isinstance(x.func, ast.Attribute) and x.func.attr in ("setdefault", "get") and x.args]
         busvar = [k for k in keys if not k.startswith("'")]
-        okb = False
-        if busvar:
+        if not busvar:
+            rep.undecided("R05.3", wd.file, wd.qual, "%s.append(...)" % norm(tgt, 40), "the per-bus container is not addressed by a key in a recognised form")
+        else:
             b = busvar[0]
             vs = uncond.get(b, [])
-            okb = len(vs) == 1 and norm(vs[0], 200).startswith("%s.get_field('bus'" % impl) or (len(vs) == 1 and norm(vs[0], 200).startswith("%s.fields.get('bus'" % impl))
-        rep.check(okb, "R05.3", wd.file, wd.qual, "%s.append(...)" % norm(tgt, 40), "filed under the bus read from the same binding in this iteration", "the message is not filed under the bus read from its own binding")
+            from_binding = lambda v: norm(v, 200).startswith(("%s.get_field('bus'" % impl, "%s.fields.get('bus'" % impl, "%s.fields['bus']" % impl))
+            if len(vs) == 1 and from_binding(vs[0]):
+                rep.ok("R05.3", wd.file, wd.qual, "%s.append(...)" % norm(tgt, 40), "filed under the bus read from the same binding in this iteration")
+            elif len(vs) == 1 or b in conditional_assigns(main):
+                rep.violation("R05.3", wd.file, wd.qual, "%s.append(...)" % norm(tgt, 40), "the message is not filed under the bus read from its own binding")
+            else:
+                rep.undecided("R05.3", wd.file, wd.qual, "%s.append(...)" % norm(tgt, 40), "the bus key %s is not bound in a recognised way" % b)
     # one result per bus: results come from iterating the bus-keyed mapping
     for n in ast.walk(wd.node):
         if isinstance(n, ast.Call) and (dotted(n.func) or "").split(".")[-1] == "groupby":
